@@ -106,10 +106,20 @@ def joined_is_inside(p: Prov, folder: str, rel: str):
     # win_paths: a relative part that looks like a drive ("c:...") joined to the root keeps no leading separator
     assume(not p.win_paths or f != p.sep or len(r) < 2 or r[1] != ":")
     j = p.join(folder, rel)
-    check(j == (f if f != p.sep else "") + p.sep + r, "join is folder + sep + relative part")
-    check(nps(p, j) == j, "join result is normalised")
-    ghost = (j.lower(), f.lower())      # instantiates the `lower` specification on the concatenation
-    s = p.is_subpath(folder, j)
+    # the value of the join, proved here and used below in place of j (rewriting by a proved equality)
+    if f == p.sep:
+        jj = p.sep + r
+    else:
+        jj = f + p.sep + r
+    check(j == jj, "join is folder + sep + relative part")
+    check(nps(p, jj) == jj, "join result is normalised")
+    if not p.case_sensitive:
+        # cut lemmas about case folding (instantiate the `lower` specification on the concatenation)
+        check(jj.lower() == (p.sep + r.lower() if f == p.sep else f.lower() + p.sep + r.lower()),
+              "case folding distributes over the joined path")
+        check(nps(p, jj).lower() == jj.lower(), "the normalised join folds to the same string")
+        check(f.lower() != jj.lower(), "folder and joined path differ after folding")
+    s = p.is_subpath(folder, jj)
     check(truthy(s), "joined path is reported inside the folder")
     check(s == p.sep + r, "with the same relative part")
 
